@@ -868,7 +868,7 @@ class Curve(SplineGeometry):
         stop = self.knotvector[-(self.degree+1)]
 
         # Set delta value
-        self.delta = (stop - start) / float(value)
+        self.delta = 1.0 / float(value)
 
     @property
     def delta(self):
@@ -1509,7 +1509,7 @@ class Surface(SplineGeometry):
         stop_u = self.knotvector_u[-(self.degree_u+1)]
 
         # Set delta values
-        self.delta_u = (stop_u - start_u) / float(value)
+        self.delta_u = 1.0 / float(value)
 
     @property
     def sample_size_v(self):
@@ -1541,7 +1541,7 @@ class Surface(SplineGeometry):
         stop_v = self.knotvector_v[-(self.degree_v+1)]
 
         # Set delta values
-        self.delta_v = (stop_v - start_v) / float(value)
+        self.delta_v = 1.0 / float(value)
 
     @property
     def sample_size(self):
@@ -1580,8 +1580,8 @@ class Surface(SplineGeometry):
         stop_v = self.knotvector_v[-(self.degree_v+1)]
 
         # Set delta values
-        self.delta_u = (stop_u - start_u) / float(value)
-        self.delta_v = (stop_v - start_v) / float(value)
+        self.delta_u = 1.0 / float(value)
+        self.delta_v = 1.0 / float(value)
 
     @property
     def delta_u(self):
@@ -2559,7 +2559,7 @@ class Volume(SplineGeometry):
         stop_u = self.knotvector_u[-(self.degree_u + 1)]
 
         # Set delta values
-        self.delta_u = (stop_u - start_u) / float(value)
+        self.delta_u = 1.0 / float(value)
 
     @property
     def sample_size_v(self):
@@ -2591,7 +2591,7 @@ class Volume(SplineGeometry):
         stop_v = self.knotvector_v[-(self.degree_v + 1)]
 
         # Set delta values
-        self.delta_v = (stop_v - start_v) / float(value)
+        self.delta_v = 1.0 / float(value)
 
     @property
     def sample_size_w(self):
@@ -2623,7 +2623,7 @@ class Volume(SplineGeometry):
         stop_w = self.knotvector_w[-(self.degree_w + 1)]
 
         # Set delta values
-        self.delta_w = (stop_w - start_w) / float(value)
+        self.delta_w = 1.0 / float(value)
 
     @property
     def sample_size(self):
@@ -2666,9 +2666,9 @@ class Volume(SplineGeometry):
         stop_w = self.knotvector_w[-(self.degree_w + 1)]
 
         # Set delta values
-        self.delta_u = (stop_u - start_u) / float(value)
-        self.delta_v = (stop_v - start_v) / float(value)
-        self.delta_w = (stop_w - start_w) / float(value)
+        self.delta_u = 1.0 / float(value)
+        self.delta_v = 1.0 / float(value)
+        self.delta_w = 1.0 / float(value)
 
     @property
     def delta_u(self):
